@@ -58,7 +58,8 @@ def member_names(spec) -> list:
 
 
 def decl_source(f) -> str:
-    ty = {"int": "T" if f.get("tv") else "int", "any": "Any", "optint": "Optional[int]"}[f["ty"]]
+    ty = {"int": "T" if f.get("tv") else "int", "any": "Any", "optint": "Optional[int]",
+          "nested": "Optional[N]" if f["dflt"] == "none" else "N"}[f["ty"]]
     if f["ann"] is not None:
         items = ", ".join(f"Alias({a[1]!r})" if a[0] == "alias" else "'other'" for a in f["ann"])
         ty = f"Annotated[{ty}, {items}]"
@@ -101,6 +102,10 @@ def class_source(spec) -> str:
          "",
          "T = TypeVar('T')",
          ""]
+    if spec.get("inner") is not None:
+        inner_src = class_source(spec["inner"])
+        L.append(inner_src[inner_src.index("T = TypeVar('T')") + len("T = TypeVar('T')"):].strip("\n"))
+        L.append("")
     root = MIXINS[spec["mixin"]] if spec["mixin"] else ""
     if spec["discr"] is not None:
         L.append("@dataclass")
@@ -780,6 +785,214 @@ def kernel_validation(ctx, rng):
         if bad:
             ctx.not_shown("translation validation K4", f"inputs {[shown[i] for i in bad[:5]]}")
 
+
+# ---------------------------------------------------------------------------
+# dataclass-typed fields (one level of nesting): generator, oracle, observation
+# ---------------------------------------------------------------------------
+
+def gen_nested(rng):
+    """outer class K with 1..3 fields, at least one of type N (another dataclass with its own aliases and options)"""
+    def decl(n, ty, dflt, tag):
+        meta = rng.choice([None, f"m{tag}_{n}", "s1", n]) if rng.random() < 0.6 else None
+        ann = [("alias", rng.choice([f"a{tag}_{n}", "s2"]))] if rng.random() < 0.3 else None
+        return {"name": n, "meta": meta, "ann": ann, "init": True, "dflt": dflt, "ty": ty, "mo": False, "kw": False, "tv": False}
+
+    def cfg(names, tag):
+        return {"plain": False, "inherit": None,
+                "aliases": {n: rng.choice([f"c{tag}_{n}", "s1", "s2"]) for n in names if rng.random() < 0.4},
+                "allow": rng.random() < 0.5, "forbid": rng.random() < 0.5}
+    inames = ["p", "q"][:rng.choice([1, 2, 2])]
+    k = rng.randrange(len(inames) + 1)
+    idecls = [decl(n, "int", "int" if i >= len(inames) - k else None, "i") for i, n in enumerate(inames)]
+    inner = {"levels": [{"cls": "N", "decls": idecls, "config": cfg(inames, "i")}], "classvar": [], "initvar": [],
+             "shape": "chain", "generic": False, "discr": None, "mixin": rng.choice([None, "dict"])}
+    names = NAMES[:rng.choice([1, 2, 2, 3])]
+    nested = set(rng.sample(names, rng.choice([1, 1, 2]) if len(names) > 1 else 1))
+    k = rng.randrange(len(names) + 1)
+    decls = []
+    for i, n in enumerate(names):
+        has_d = i >= len(names) - k
+        if n in nested:
+            decls.append(decl(n, "nested", "none" if has_d else None, "o"))
+        else:
+            decls.append(decl(n, "any", "int" if has_d else None, "o"))
+    return {"levels": [{"cls": "K", "decls": decls, "config": cfg(names, "o")}], "classvar": [], "initvar": [],
+            "shape": "chain", "generic": False, "discr": None, "mixin": rng.choice([None, "dict", "json"]), "inner": inner}
+
+
+def o_nkeymodel(spec, d):
+    """the outer class resolves its keys with its own rules; a dataclass-typed field hands the value it was read from to
+    the inner class, which applies *its* rules; anything going wrong inside is an InvalidFieldValue of the outer field"""
+    acc = o_accepted(spec)
+    extra = [k for k in d if k not in acc]
+    if o_config(spec)["forbid"] and extra:
+        return ("extra", extra)
+    vals = []
+    for f in o_fields(spec):
+        for k in o_candidates(spec, f):
+            if k in d:
+                v = d[k]
+                if f["ty"] == "nested":
+                    if not isinstance(v, dict):
+                        return ("invalid", f["name"])
+                    r = o_keymodel(spec["inner"], v)
+                    if r[0] != "inst":
+                        return ("invalid", f["name"])
+                    v = ("inner", r[1])
+                vals.append((f["name"], v))
+                break
+        else:
+            if f["dflt"] is None:
+                return ("missing", f["name"])
+            vals.append((f["name"], o_default(f)))
+    return ("inst", vals)
+
+
+def observe_nested(spec, call, d):
+    from mashumaro.exceptions import ExtraKeysError, InvalidFieldValue, MissingField
+    try:
+        obj = call({k: (dict(v) if isinstance(v, dict) else v) for k, v in d.items()})
+    except ExtraKeysError as e:
+        ek = set(e.extra_keys)
+        if any(k not in d for k in ek):
+            return ("exc", f"ExtraKeysError.extra_keys {ek!r} is not a set of input keys")
+        return ("extra", [k for k in d if k in ek])
+    except MissingField as e:
+        return ("missing", e.field_name)
+    except InvalidFieldValue as e:
+        return ("invalid", e.field_name)
+    except Exception as e:
+        return ("exc", f"{type(e).__name__}: {e}")
+    if type(obj).__name__ != "K":
+        return ("exc", f"result is a {type(obj).__name__}")
+    vals = []
+    for f in o_fields(spec):
+        v = getattr(obj, f["name"], "<no attribute>")
+        if type(v).__name__ == "N":
+            v = ("inner", [(g["name"], getattr(v, g["name"], "<no attribute>")) for g in o_fields(spec["inner"])])
+        vals.append((f["name"], v))
+    return ("inst", vals)
+
+
+def nested_stream(ctx, rng, k4_ok):
+    import json
+    from mashumaro.codecs import BasicDecoder
+    from mashumaro.codecs.json import JSONDecoder
+    items, shown = [], []
+    n_cls = ctx.budget(40, 200)
+    for ci in range(n_cls):
+        spec = gen_nested(rng)
+        src = class_source(spec)
+        try:
+            mod = build_class(src)
+            K = mod.K
+            ents = ([("K.from_dict", K.from_dict)] if spec["mixin"] else []) + [("BasicDecoder(K).decode", BasicDecoder(K).decode)]
+            jd = JSONDecoder(K)
+            ents.append(("JSONDecoder(K).decode", lambda d, jd=jd: jd.decode(json.dumps(d))))
+            if spec["mixin"] == "json":
+                ents.append(("K.from_json", lambda d, K=K: K.from_json(json.dumps(d))))
+        except Exception as e:
+            ctx.fail(f"class creation fails: {type(e).__name__}: {e}",
+                     {"entry": "class-creation", "source": src, "spec": spec, "input": [], "observed": repr(e),
+                      "expected": "classes N and K are created"}, {"kind": "class-creation", "exc": type(e).__name__})
+            continue
+        inner = spec["inner"]
+        ikeys = candidate_keys(inner, rng, limit=5)
+        okeys = candidate_keys(spec, rng, limit=6)
+        ncands = {k for f in o_fields(spec) if f["ty"] == "nested" for k in o_candidates(spec, f)}
+        ctx.hist("nested", f"outer fields={len(o_fields(spec))} nested={sum(1 for f in o_fields(spec) if f['ty'] == 'nested')} "
+                           f"inner fields={len(o_fields(inner))}")
+        c_outer = f"(builder_class_of {c_spec(spec)} None)"
+        c_inner = f"(builder_class_of {c_spec(inner)} None)"
+        nt = "[" + "; ".join(f"({coq_str(f['name'])}, n{ci})" for f in o_fields(spec) if f["ty"] == "nested") + "]"
+        idfl = "[" + "; ".join(f"({coq_str(f['name'])}, {c_defaults(inner)})" for f in o_fields(spec) if f["ty"] == "nested") + "]"
+        dtxt = f"Definition n{ci} : cls := {c_inner}.\nDefinition c{ci} : cls := {c_outer}."
+        for ks in subsets(okeys, rng, ctx.budget(20, 64)):
+            tbl = []
+            d = {}
+            order = list(ks)
+            rng.shuffle(order)
+            for k in order:
+                want_dict = rng.random() < (0.8 if k in ncands else 0.1)
+                if want_dict:
+                    iks = [x for x in ikeys if rng.random() < 0.6]
+                    rng.shuffle(iks)
+                    dn = {x: 200 + 10 * len(tbl) + ikeys.index(x) for x in iks}
+                    dn = {x: v for x, v in dn.items()}
+                    tbl.append(dn)
+                    d[k] = dn
+                else:
+                    d[k] = 100 + okeys.index(k)
+            if not all(isinstance(x, str) for dn in tbl for x in dn) or not str_keys(d):
+                json_ok = False
+            else:
+                json_ok = True
+            exp = o_nkeymodel(spec, d)
+            obs0 = None
+            for ename, call in ents:
+                if "JSON" in ename or "json" in ename:
+                    if not json_ok:
+                        continue
+                obs = observe_nested(spec, call, d)
+                ctx.count(("nested", ci, repr(sorted(map(repr, d.items()))), ename))
+                ctx.hist("outcome", obs[0] + " (nested stream)")
+                if obs0 is None:
+                    obs0 = obs
+                if obs != exp:
+                    ctx.fail(f"{ename}({d!r}) -> {obs!r}, KEYMODEL says {exp!r}",
+                             dict(replay_of(spec, src, ename, {}, obs, exp), input_nested=[[jsonable_key(k), v if not isinstance(v, dict) else {"dict": [[jsonable_key(a), b] for a, b in v.items()]}] for k, v in d.items()]),
+                             {"kind": "nested-key-resolution", "observed": obs[0], "expected": exp[0]})
+
+            def cv(v):
+                if isinstance(v, dict):
+                    return coq_z(1000 + [i for i, t in enumerate(tbl) if t is v or t == v][0])
+                return c_val(v)
+
+            def cobs(o):
+                if o[0] == "inst":
+                    parts = []
+                    for n, v in o[1]:
+                        if isinstance(v, tuple) and v[0] == "inner":
+                            parts.append(f"({coq_str(n)}, OI [" + "; ".join(f"({coq_str(a)}, {c_val(b)})" for a, b in v[1]) + "])")
+                        elif isinstance(v, (int, dict)) or v is None:
+                            parts.append(f"({coq_str(n)}, OV {cv(v)})")
+                        else:
+                            return '(NVMissing "<unexpected value>")'
+                    return "(NVInst [" + "; ".join(parts) + "])"
+                if o[0] == "missing":
+                    return f"(NVMissing {coq_str(o[1])})"
+                if o[0] == "invalid":
+                    return f"(NVInvalid {coq_str(o[1])})"
+                if o[0] == "extra":
+                    return "(NVExtra [" + "; ".join(c_key(k) for k in o[1]) + "])"
+                return '(NVMissing "<unexpected exception>")'
+            ctbl = "[" + "; ".join(c_dict(t) for t in tbl) + "]"
+            cd = "[" + "; ".join(f"({c_key(k)}, {cv(v)})" for k, v in d.items()) + "]"
+            items.append((ci, dtxt, f"(c{ci}, {nt}, {c_defaults(spec)}, {idfl}, {ctbl}, {cd}, {cobs(obs0)})"))
+            shown.append((src, d, obs0))
+        drop_module(mod)
+    ok_ref = ("fun c => match c with (cl, nt, dfl, idfl, tbl, d, o) => "
+              "nobservation_eqb (nobserve dfl idfl (nkeymodel cl nt tbl d)) o end")
+    ok_both = ("fun c => match c with (cl, nt, dfl, idfl, tbl, d, o) => "
+               "nobservation_eqb (nobserve dfl idfl (nimpl cl nt tbl d)) o && "
+               "nobservation_eqb (nobserve dfl idfl (nkeymodel cl nt tbl d)) o end")
+    ctype = "cls * list (string * cls) * list Z * list (string * list Z) * list dict * dict * nobservation"
+    if k4_ok:
+        bad, log = coq_check("c09_nested", ("KeyModel KeyImpl KeyProofs KeyNested PyK_alias", "From VerifGen Require Import K4.",
+                                            ["theories/KeyNested.vo"]), items, ok_both, ctx, ctype=ctype)
+    else:
+        bad, log = None, "kernel K4 did not translate (the nested model is built on it)"
+    name = "nested: nimpl(K4)/nkeymodel-vs-from_dict"
+    if bad is None:
+        ctx.correspondence(name, len(items), -1, log)
+        ctx.not_shown("correspondence " + name, log)
+    else:
+        det = "" if not bad else f"{len(bad)} cases, first: input {shown[bad[0]][1]!r}: implementation {shown[bad[0]][2]!r}\n{shown[bad[0]][0]}"
+        ctx.correspondence(name, len(items), len(bad), det)
+        if bad:
+            ctx.not_shown("correspondence " + name, det)
+
+
 # ---------------------------------------------------------------------------
 # the check
 # ---------------------------------------------------------------------------
@@ -787,7 +1000,7 @@ def kernel_validation(ctx, rng):
 THEOREMS = ["K4_precedence", "K4_key_plan", "K4_allowed_keys", "C09_impl_is_code", "C09_keys", "C09_keys_hier",
             "C09_keys_hier_py_partial", "C09_keys_hier_py_refuted", "C09_nearest_declaration", "C09_nearest_config",
             "C09_builder_config_partial", "C09_builder_config_refuted", "C09_fields_unique", "C09_alias_from_sources",
-            "C09_mro_chain", "C09_mro_roots", "C09_own_view_finished", "C09_own_view_raw",
+            "C09_mro_chain", "C09_mro_roots", "C09_own_view_finished", "C09_own_view_raw", "C09_nested", "C09_nested_inner_options",
             "C09_field_key", "C09_outcome", "C09_alias_wins", "C09_fallback", "C09_accepted_covers_reads",
             "C09_reads_allowed", "C09_extra_members", "C09_extra_exact", "C09_ignored", "C09_forbidden_reported"]
 
@@ -867,6 +1080,7 @@ def run(ctx: vlib.Ctx):
     rng = ctx.rng
     if k4_ok:
         kernel_validation(ctx, rng)
+    nested_stream(ctx, rng, k4_ok)
     n_classes = ctx.budget(200, 380)
     sub_max = ctx.budget(32, 256)
     forced = [{"allow": a, "forbid": b, "mixin": m, "nf": nf, "depth": dp} for a in (False, True) for b in (False, True)
@@ -1063,6 +1277,27 @@ def replay(rep: dict) -> int:
             print("REPRODUCED")
             return 1
         return 2
+    if rep["entry"] in ("class-creation", "decoder-creation"):
+        try:
+            entries(spec, mod)
+            source_views(spec, mod)
+        except Exception as e:
+            print("decoder / builder creation:", type(e).__name__, e)
+            print("REPRODUCED")
+            return 1
+        print("classes, decoders and builder views are created")
+        print("not reproduced")
+        return 0
+    if "input_nested" in rep:
+        from mashumaro.codecs import BasicDecoder
+        d = {unjson_key(k): ({unjson_key(a): b for a, b in v["dict"]} if isinstance(v, dict) else v) for k, v in rep["input_nested"]}
+        norm_spec(spec["inner"])
+        call = mod.K.from_dict if rep["entry"] == "K.from_dict" else BasicDecoder(mod.K).decode
+        obs = observe_nested(spec, call, d)
+        exp = o_nkeymodel(spec, d)
+        print(rep["source"]); print("input   ", d); print("observed", obs); print("expected", exp)
+        print("REPRODUCED" if obs != exp else "not reproduced")
+        return 1 if obs != exp else 0
     d = {unjson_key(k): v for k, v in rep["input"]}
     call = None
     for ename, c, _ in entries(spec, mod):
